@@ -95,7 +95,7 @@ func (e *Env) udst(p *router.Packet, out router.Link, d *net.UDPAddr, w *Wire, s
 	if src != nil && d.IP.Equal(src.IP) && d.Port == src.Port {
 		return "sender"
 	}
-	if len(w.DstHost) == 4 && d.IP.Equal(net.IP(w.DstHost)) {
+	if (len(w.DstHost) == 4 || len(w.DstHost) == 16) && w.DT == 0 && d.IP.Equal(net.IP(w.DstHost)) {
 		return "dsthost"
 	}
 	return "other"
